@@ -198,6 +198,7 @@ impl Prop for C11 {
         ctx.label(mode_label(md));
         let x = case.x;
         let d = x.dec();
+        crate::c07::failing_sink_first(&d, engine::case_hash(case));
         let idx = (case.flags as usize) % N_FLAGS;
         let (w, p) = (case.width.map(|v| v as usize), case.precision.map(|v| v as usize));
         TABLE.with(|t| {
